@@ -37,6 +37,12 @@ func genC01(t *rapid.T) Case {
 		}
 		c.Ops = append(c.Ops, op)
 	}
+	// many keys at once: key listings of 17 ... 1300 entries
+	if rapid.IntRange(0, 9).Draw(t, "manyKeys") == 0 {
+		at := rapid.IntRange(0, len(c.Ops)).Draw(t, "manyAt")
+		bop := Op{K: "txburst", N: rapid.SampledFrom([]int{17, 33, 100, 1000, 1001, 1300}).Draw(t, "manyN")}
+		c.Ops = append(c.Ops[:at:at], append([]Op{bop, {K: "keys"}}, c.Ops[at:]...)...)
+	}
 	// several files open at the same time, more than the database has workers
 	if rapid.IntRange(0, 5).Draw(t, "filesTogether") == 0 {
 		at := rapid.IntRange(0, len(c.Ops)).Draw(t, "filesAt")
